@@ -2,6 +2,7 @@ import Proofs.TrieBuild
 import Proofs.TrieOfTable
 import Proofs.TrieShape
 import Proofs.TrieBuildClosed
+import Proofs.TrieBuildBlanks
 import Properties.C03Trie
 /-!
 # C03 (trie clause, builder) — lm/search_trie.cc between the ARPA n-grams and the trie memory
@@ -20,21 +21,23 @@ theorem trie_build_represents (a : Arpa) (wf : WellFormed a) … :
     buildTrie fadd order bound start (gramsOf a) = .ok M → ∃ rng, Represents fval M (Table.build a) rng
 theorem trie_end_to_end … : (fullScore (TrieLM.search fval M) s w).1.prob = score a h w      -- = trie_prob ∘ trie_build_represents
 ```
-Status after round 5 (all general, unbounded unless marked):
-* G1 CLOSED — `visit_order_strict`, `trie_build_visit`.
-* G2 + G2b CLOSED — `ofTable_represents_general`, `trie_build_refines_general`: `Represents (ofTable bt …) (tableOf (ftOf bt))` and
-  FullScore over the built memory = FullScore over the bit table for every well-formed bit table (`BTOK`, `ValsOK`) with sizes
-  below 2^57 (`SmallOK`); the layout facts `ShapeOK` are now derived from the C04 layout model (`shape_ok`:
-  closed form of `trieMiddleLoop`, widths from `RequiredBits`, no `uint8` wrap, regions in file order).
-* G3 CLOSED FOR SUFFIX-CLOSED MODELS — `trie_build_represents_closed`, `trie_end_to_end_closed`: for every well-formed
-  suffix-closed model with a value encoding (`ArpaEnc`) the builder model succeeds without blanks, its bit table *is*
-  `Table.build a` (`closed_table_eq`: values, extends-left = has a child, extends-right = non-zero back-off / context of a
-  longer n-gram / hallucinated `<unk>`), hence FullScore over the memory the trie builder writes = `score a h w`.  Instance:
-  `ex_enc`, `example_end_to_end_closed`, `example_end_to_end_null`.
-* G3 OPEN FOR MODELS WITH BLANKS — `blankProb` (float sum of back-offs in increasing context length) = `score a ctx w` and the
-  message-based marks = `Table.build`'s; `trie_build_represents_partial` / `trie_build_visit` characterise which blanks are
-  created and on which basis, the value/marks correspondence is not composed.
+Status after round 6 (all general, unbounded unless marked):
+* G1, G2, G2b CLOSED — `visit_order_strict`, `ofTable_represents_general`, `trie_build_refines_general`, `shape_ok`.
+* G3 CLOSED, INCLUDING MODELS THAT NEED BLANKS — `trie_build_represents`, `trie_end_to_end`: for every well-formed ARPA model
+  (prefix/context-closed, vocabulary listed in the unigrams; NOT necessarily suffix-closed) with a value encoding (`ArpaEncW`)
+  and float sums that are exact on its blanks (`BlankArith`: proper model, representable values):
+  the `BlankManager` pass succeeds and creates exactly the missing reversed prefixes, each once (`trie_build_blanks_exact`,
+  from the invariant `Full`: soundness, completeness, uniqueness via contiguity of prefix blocks in the visit order);
+  a blank's probability is the back-off recursion `score a ctx w` (`blank_score`: basis = longest real prefix, operands =
+  back-offs of the asked contexts); the context streams + `SRISucks` messages (incl. the leftover loop) mark exactly
+  `isContext` (`marks_iff_isContext`); children = `extendsLeft`; so the bit table agrees with `Table.build a` on every key
+  (`gen_table_agree`, up to the ghost flag `blank`: `TableAgree`, `Represents.transfer`), and FullScore over the memory the trie
+  builder writes = `score a h w`.  Suffix-closed special case: `trie_end_to_end_closed`.
+  Instances: `example_end_to_end_closed` (bigram model), `example_end_to_end_pruned` (trigram model needing the blank `b c`).
 * G4 OPEN — `ofTable` for ArrayBhiksha / SeparatelyQuantize layouts (compared through lookups only).
+* Modelling assumptions that remain hypotheses: exactness of the float sums on the model's blanks (`BlankArith`), the value
+  encoding (`ArpaEncW`), sizes below 2^57 (`SmallOK`); SortedVocabulary renumbering and the merge of sorted batches are
+  modelled by their result (C20 `sorted_vocab_correct`, C16 `extSort_unique`).
 -/
 namespace KV.C03TrieBuild
 open KV.Arpa KV.TrieLM KV.TrieBuild
@@ -251,6 +254,67 @@ theorem blank_value_partial (fval : Nat → Rat) (fadd : Nat → Nat → Nat) (h
     fval (blankProb fadd gs b) = fval b.basis + ((messageKeys b).map (msgValue fval gs)).sum :=
   blankProb_value fval fadd hadd hz gs b
 
+/-! ## Round 6: models that need blanks (SRI-pruned) — end to end -/
+
+/-- what the float arithmetic must satisfy on the model at hand (`ArpaEncW` is about the parsed values), for every blank the
+pass creates: the float sum `base[..] += backoff` the builder computes (`blankProb`, additions in message order) decodes to the
+exact sum of the decoded operands, fits 32 bits and survives the non-positive 31-bit encoding of `WriteNonPositiveFloat31`
+(proper model: blank scores ≤ 0).  `blank_value_partial`: an addition that is exact on all bit patterns gives the third clause. -/
+structure BlankArith (fval : Nat → Rat) (fadd : Nat → Nat → Nat) (a : Arpa) (P B : List Word → Nat) : Prop where
+  sums : ∀ st, visitAll (visitOrder (gramsOf a P B)) = .ok st → ∀ b ∈ st.blanks,
+    blankProb fadd (visitOrder (gramsOf a P B)) b < 2^32 ∧
+    fval (blankProb fadd (visitOrder (gramsOf a P B)) b % 2^31 + 2^31) = fval (blankProb fadd (visitOrder (gramsOf a P B)) b) ∧
+    fval (blankProb fadd (visitOrder (gramsOf a P B)) b)
+      = fval b.basis + ((messageKeys b).map (msgValue fval (visitOrder (gramsOf a P B)))).sum
+
+open KV.Table KV.Score KV.State in
+/-- **trie_build_represents** — for every well-formed ARPA model, suffix-closed or not (SRI-pruned models included), with a value
+encoding and exact arithmetic on its values: the model of `lm/search_trie.cc` succeeds; the blanks it creates are exactly the
+missing reversed prefixes, each once (`visit_full`); its bit table agrees with `Table.build a` on every key — real entries and
+blanks, probabilities (blank = the back-off recursion `score`), back-offs, extends-left, and extends-right from the context
+streams and the `SRISucks` messages incl. the leftover loop (`gen_table_agree`); and the memory `ofTable` writes from it
+**represents `Table.build a`**. -/
+theorem trie_build_represents (fval : Nat → Rat) (fadd : Nat → Nat → Nat) (a : Arpa) (bound start : Nat)
+    (P B : List Word → Nat) (enc : ArpaEncW fval a bound P B) (ar : BlankArith fval fadd a P B)
+    (sm : ∀ st, visitAll (visitOrder (gramsOf a P B)) = .ok st →
+      SmallOK (genTable fadd a.order (visitOrder (gramsOf a P B)) st.blanks) bound a.order) :
+    ∃ b, buildTable fadd a.order (gramsOf a P B) = .ok b ∧
+      Represents fval (ofTable b.table bound a.order start) (Table.build a) (rngOf b.table bound) := by
+  obtain ⟨st, b, hst, hf, hb, htab, _⟩ := buildTable_general fadd enc
+  refine ⟨b, hb, ?_⟩
+  rw [htab]
+  have hs := ar.sums st hst
+  have rep := ofTable_represents_general fval _ bound a.order start (genTable_btok fadd enc st hf)
+    (genTable_vals fadd enc st (fun b hb => (hs b hb).1)) (sm st hst)
+  exact rep.transfer (gen_table_agree fadd enc st hf (fun b hb => (hs b hb).2.2) (fun b hb => (hs b hb).2.1))
+
+open KV.Table KV.Score KV.State in
+/-- **trie_end_to_end** — ARPA → trie builder → memory → every query = the ARPA back-off recursion, for every well-formed model
+including those that need hallucinated blanks: `FullScore` over the memory the trie builder writes returns `score a h w` for
+every state reached by left-to-right scoring and every vocabulary word.  No `Represents`, no layout, no suffix-closure
+hypothesis. -/
+theorem trie_end_to_end (fval : Nat → Rat) (fadd : Nat → Nat → Nat) (a : Arpa) (bound start : Nat)
+    (P B : List Word → Nat) (enc : ArpaEncW fval a bound P B) (ar : BlankArith fval fadd a P B)
+    (sm : ∀ st, visitAll (visitOrder (gramsOf a P B)) = .ok st →
+      SmallOK (genTable fadd a.order (visitOrder (gramsOf a P B)) st.blanks) bound a.order)
+    (h : List Word) (st : State) (sf : StateFor a h st) (w : Word) (hw : a.gram [w] ≠ none)
+    (hwb : w < bound) (hs : ∀ x ∈ st.words.take st.length, x < bound) :
+    ∃ M, buildTrie fadd a.order bound start (gramsOf a P B) = .ok M ∧
+      (fullScore (search fval M) st w).1.prob = score a h w := by
+  obtain ⟨b, hb, rep⟩ := trie_build_represents fval fadd a bound start P B enc ar sm
+  refine ⟨ofTable b.table bound a.order start, by simp [buildTrie, hb], ?_⟩
+  have hbd : (ofTable b.table bound a.order start).bound = bound :=
+    ofTable_bound _ bound a.order start (by have := enc.wf.order_ge; omega)
+  exact KV.C03Trie.trie_prob a enc.wf (fun _ => false) fval _ _ rep h st sf w hw (by rw [hbd]; exact hwb) (by rw [hbd]; exact hs)
+
+/-- the blanks of the pass, exactly (general): success, soundness, completeness, no duplicates -/
+theorem trie_build_blanks_exact (fval : Nat → Rat) (a : Arpa) (bound : Nat) (P B : List Word → Nat)
+    (enc : ArpaEncW fval a bound P B) :
+    ∃ st, visitAll (visitOrder (gramsOf a P B)) = .ok st ∧ (st.blanks.map (·.key)).Nodup ∧
+      ∀ g, (∃ b ∈ st.blanks, b.key = g) ↔ IsBlankKey a g := by
+  obtain ⟨st, hst, hf⟩ := w_visit enc
+  exact ⟨st, hst, hf.nodup, blank_iff enc st hf⟩
+
 set_option maxRecDepth 8000
 section ExampleClosed
 open KV.Table KV.Score
@@ -332,5 +396,148 @@ theorem example_end_to_end_null (fadd : Nat → Nat → Nat) (start : Nat) (w : 
   exact example_end_to_end_closed fadd start [] _ (KV.C01.stateFor_null exArpa) w hw hwb (by simp [KV.Score.nullContextState])
 
 end ExampleClosed
+
+section Sentences
+open KV.Table KV.Score KV.State
+/-- the words of the out-state come from the scored word and the in-state -/
+theorem out_words_valid {ν : Type} (S : Search ν) (s : State) (w : Word) (V : Word → Prop) (hw : V w)
+    (hs : ∀ x ∈ s.words.take s.length, V x) :
+    ∀ x ∈ (fullScore S s w).2.words.take (fullScore S s w).2.length, V x := by
+  intro x hx
+  have hx' := List.mem_of_mem_take hx
+  simp only [fullScore, scoreExceptBackoff] at hx'
+  rcases List.mem_cons.mp hx' with e | e
+  · rw [e]; exact hw
+  · exact hs x (List.mem_of_mem_take e)
+
+/-- sequence scoring over the trie = sequence scoring over the table it represents -/
+theorem trie_scoreSeq (fval : Nat → Rat) (M : Trie) (T : Table) (rng : List Word → Node) (rep : Represents fval M T rng)
+    (hN : 2 ≤ T.order) : ∀ (ws : List Word) (s : State), (∀ w ∈ ws, w < M.bound) → (∀ x ∈ s.words.take s.length, x < M.bound) →
+      scoreSeq (search fval M) s ws = scoreSeq (tableSearch T) s ws := by
+  intro ws
+  induction ws with
+  | nil => intro s _ _; rfl
+  | cons w ws ih =>
+    intro s hws hs
+    have hw : w < M.bound := hws w (by simp)
+    have r := KV.C03Trie.trie_refines fval M T rng rep hN s w hw hs
+    simp only [scoreSeq]
+    rw [r.1, ← r.2.2.2.2]
+    have hout := out_words_valid (search fval M) s w (fun x => x < M.bound) hw hs
+    rw [ih _ (fun x hx => hws x (by simp [hx])) hout]
+
+/-- **trie_end_to_end_sentence** — whole sentences: left-to-right scoring of any word sequence from the null context over the
+memory the trie builder writes gives the sum of the ARPA back-off scores along the growing history (`specSeq`), for every
+well-formed model incl. those that need blanks -/
+theorem trie_end_to_end_sentence (fval : Nat → Rat) (fadd : Nat → Nat → Nat) (a : Arpa) (bound start : Nat)
+    (P B : List Word → Nat) (enc : ArpaEncW fval a bound P B) (ar : BlankArith fval fadd a P B)
+    (sm : ∀ st, visitAll (visitOrder (gramsOf a P B)) = .ok st →
+      SmallOK (genTable fadd a.order (visitOrder (gramsOf a P B)) st.blanks) bound a.order)
+    (ws : List Word) (hv : ∀ w ∈ ws, a.gram [w] ≠ none ∧ w < bound) :
+    ∃ M, buildTrie fadd a.order bound start (gramsOf a P B) = .ok M ∧
+      (scoreSeq (search fval M) nullContextState ws).1 = specSeq a [] ws := by
+  obtain ⟨b, hb, rep⟩ := trie_build_represents fval fadd a bound start P B enc ar sm
+  refine ⟨ofTable b.table bound a.order start, by simp [buildTrie, hb], ?_⟩
+  have hbd : (ofTable b.table bound a.order start).bound = bound :=
+    ofTable_bound _ bound a.order start (by have := enc.wf.order_ge; omega)
+  rw [trie_scoreSeq fval _ _ _ rep enc.wf.order_ge ws nullContextState
+    (fun w hw => by rw [hbd]; exact (hv w hw).2) (by simp [nullContextState])]
+  exact (KV.C01.scoreSeq_spec a enc.wf (fun _ => false) ws [] _ (KV.C01.stateFor_null a) (fun w hw => (hv w hw).1)).1
+
+end Sentences
+
+section ExamplePruned
+open KV.Table KV.Score
+/-- an SRI-pruned trigram model: `<unk>`=0 `<s>`=1 `</s>`=2 `a`=3 `b`=4 `c`=5; bigrams `<s> a`, `a b`; trigram `a b c` whose
+suffix `b c` is not in the model (a blank is needed).  Reversed keys. -/
+def pArpa : Arpa :=
+  { order := 3,
+    entries := [([0], ⟨-2, 0, false⟩), ([1], ⟨-99, -1/2, false⟩), ([2], ⟨-5/4, 0, false⟩), ([3], ⟨-3/4, -1/4, false⟩),
+                ([4], ⟨-3/2, -1/8, false⟩), ([5], ⟨-1, 0, false⟩),
+                ([3, 1], ⟨-1/2, -1/4, false⟩), ([4, 3], ⟨-5/8, -3/8, false⟩), ([5, 4, 3], ⟨-3/8, 0, false⟩)],
+    unkHallucinated := false }
+
+def pBits : List (List Word × (Nat × Nat)) :=
+  [([0], (3221225472, 2147483648)), ([1], (3267756032, 3204448256)), ([2], (3214934016, 2147483648)),
+   ([3], (3208642560, 3196059648)), ([4], (3217031168, 3187671040)), ([5], (3212836864, 2147483648)),
+   ([3, 1], (3204448256, 3196059648)), ([4, 3], (3206545408, 3200253952)), ([5, 4, 3], (3200253952, 2147483648))]
+
+def pP (g : List Word) : Nat := ((pBits.lookup g).getD (0, 0)).1
+def pB (g : List Word) : Nat := ((pBits.lookup g).getD (0, 0)).2
+/-- the one float addition the builder performs on this model: `-1 + -0.125 = -1.125` -/
+def pAdd (x y : Nat) : Nat := if x = 3212836864 ∧ y = 3187671040 then 3213885440 else 0
+
+theorem p_real (g : List Word) (h : pArpa.gram g ≠ none) :
+    g = [0] ∨ g = [1] ∨ g = [2] ∨ g = [3] ∨ g = [4] ∨ g = [5] ∨ g = [3, 1] ∨ g = [4, 3] ∨ g = [5, 4, 3] := by
+  cases hg : pArpa.gram g with
+  | none => exact absurd hg h
+  | some e =>
+    have := KV.Score.lookup_some_mem _ _ _ hg
+    simp [pArpa] at this
+    rcases this with h | h | h | h | h | h | h | h | h <;> simp [h.1]
+
+theorem p_wf : WellFormed pArpa := by
+  refine ⟨by decide, ?_, ?_, ?_, ?_⟩
+  · intro g h; rcases p_real g h with rfl | rfl | rfl | rfl | rfl | rfl | rfl | rfl | rfl <;> simp
+  · intro g h; rcases p_real g h with rfl | rfl | rfl | rfl | rfl | rfl | rfl | rfl | rfl <;> decide
+  · intro x g hg h
+    have := p_real (x :: g) h
+    simp at this
+    rcases this with ⟨_, rfl⟩ | ⟨_, rfl⟩ | ⟨_, rfl⟩ | ⟨_, rfl⟩ | ⟨_, rfl⟩ | ⟨_, rfl⟩ | ⟨_, rfl⟩ | ⟨_, rfl⟩ | ⟨_, rfl⟩ <;>
+      first | exact absurd rfl hg | decide
+  · intro g e h hl
+    have := KV.Score.lookup_some_mem _ _ _ h
+    simp [pArpa] at this
+    rcases this with ⟨rfl, rfl⟩ | ⟨rfl, rfl⟩ | ⟨rfl, rfl⟩ | ⟨rfl, rfl⟩ | ⟨rfl, rfl⟩ | ⟨rfl, rfl⟩ | ⟨rfl, rfl⟩ | ⟨rfl, rfl⟩ | ⟨rfl, rfl⟩ <;>
+      first | rfl | (simp [pArpa] at hl)
+
+theorem p_enc : ArpaEncW f32ToRat pArpa 6 pP pB := by
+  refine ⟨p_wf, by decide, by decide, ?_, ?_, ?_, by decide +kernel⟩
+  · intro w hw
+    have : w = 0 ∨ w = 1 ∨ w = 2 ∨ w = 3 ∨ w = 4 ∨ w = 5 := by omega
+    rcases this with rfl | rfl | rfl | rfl | rfl | rfl <;> decide
+  · intro g e h
+    have := KV.Score.lookup_some_mem _ _ _ h
+    simp [pArpa] at this
+    rcases this with ⟨rfl, rfl⟩ | ⟨rfl, rfl⟩ | ⟨rfl, rfl⟩ | ⟨rfl, rfl⟩ | ⟨rfl, rfl⟩ | ⟨rfl, rfl⟩ | ⟨rfl, rfl⟩ | ⟨rfl, rfl⟩ | ⟨rfl, rfl⟩ <;>
+      decide +kernel
+  · intro g e h
+    have := KV.Score.lookup_some_mem _ _ _ h
+    simp [pArpa] at this
+    rcases this with ⟨rfl, rfl⟩ | ⟨rfl, rfl⟩ | ⟨rfl, rfl⟩ | ⟨rfl, rfl⟩ | ⟨rfl, rfl⟩ | ⟨rfl, rfl⟩ | ⟨rfl, rfl⟩ | ⟨rfl, rfl⟩ | ⟨rfl, rfl⟩ <;>
+      decide +kernel
+
+/-- the pass creates exactly the blank `b c`, based on the unigram `c` -/
+theorem p_blanks (st : VisitState) (h : visitAll (visitOrder (gramsOf pArpa pP pB)) = .ok st) :
+    st.blanks = [⟨[5, 4], 1, 3212836864⟩] := by
+  have hd : (match visitAll (visitOrder (gramsOf pArpa pP pB)) with
+      | .ok s => some s.blanks | .error _ => none) = some [⟨[5, 4], 1, 3212836864⟩] := by decide +kernel
+  rw [h] at hd
+  exact Option.some.inj hd
+
+theorem p_arith : BlankArith f32ToRat pAdd pArpa pP pB := by
+  refine ⟨?_⟩
+  intro st hst b hb
+  rw [p_blanks st hst] at hb
+  simp only [List.mem_singleton] at hb
+  subst hb
+  refine ⟨by decide +kernel, by decide +kernel, by decide +kernel⟩
+
+theorem p_small (st : VisitState) (hst : visitAll (visitOrder (gramsOf pArpa pP pB)) = .ok st) :
+    SmallOK (genTable pAdd pArpa.order (visitOrder (gramsOf pArpa pP pB)) st.blanks) 6 pArpa.order := by
+  rw [p_blanks st hst]
+  exact ⟨by decide, by decide, by decide +kernel⟩
+
+/-- **non-vacuity of `trie_end_to_end` on a model that needs a blank**: all hypotheses hold for the SRI-pruned example; the
+builder model succeeds, hallucinates `b c` with probability `-1.125 = p(c) + bo(b)`, and every `FullScore` over the memory it
+writes is the ARPA recursion -/
+theorem example_end_to_end_pruned (start : Nat) (h : List Word) (st : KV.State.State)
+    (sf : StateFor pArpa h st) (w : Word) (hw : pArpa.gram [w] ≠ none) (hwb : w < 6)
+    (hs : ∀ x ∈ st.words.take st.length, x < 6) :
+    ∃ M, buildTrie pAdd pArpa.order 6 start (gramsOf pArpa pP pB) = .ok M ∧
+      (fullScore (search f32ToRat M) st w).1.prob = score pArpa h w :=
+  trie_end_to_end f32ToRat pAdd pArpa 6 start pP pB p_enc p_arith p_small h st sf w hw hwb hs
+
+end ExamplePruned
 
 end KV.C03TrieBuild
